@@ -78,6 +78,10 @@ EXPLANATION += (
     ' Round 11: path-valued arguments make the parameters they are bound to path-valued (propagated to a fixpoint).'
 )
 
+EXPLANATION += (
+    ' Round 12: is_exposed answers False early only where the walk over the ancestors ends (R-MUST/exposure-walks-ancestors).'
+)
+
 RULE_TEXT = (
     "one obligation per emitted value (config, log, log file, module), "
     "per removed key, per path interpolation site")
@@ -281,6 +285,31 @@ def check_exposure_test(ctx):
                                 sd.args[0], ast.Constant) \
                             and sd.args[0].value in ('.', '/', ''):
                         ends = True
+        for (_g, test, truth) in facts:
+            # `anc in (Path('.'), Path('/'))`
+            if truth and isinstance(test, ast.Compare) and len(
+                    test.ops) == 1 and isinstance(test.ops[0], ast.In) \
+                    and isinstance(test.comparators[0], (ast.Tuple,
+                                                         ast.List,
+                                                         ast.Set)) \
+                    and test.comparators[0].elts and all(
+                        isinstance(e, ast.Call) and getattr(
+                            e.func, 'attr', getattr(e.func, 'id', None))
+                        == 'Path' and len(e.args) == 1 and isinstance(
+                            e.args[0], ast.Constant)
+                        and e.args[0].value in ('.', '/', '')
+                        for e in test.comparators[0].elts):
+                ends = True
+        if not ends and not any(tr for (_g, _t, tr) in facts):
+            # the plain `return False` after a loop over `.parents`: every
+            # ancestor has been looked at
+            after_walk = any(
+                isinstance(lp, ast.For) and isinstance(
+                    lp.iter, ast.Attribute) and lp.iter.attr == 'parents'
+                and getattr(lp, 'end_lineno', 0) < getattr(
+                    r.ast, 'lineno', 0)
+                for lp in ast.walk(fi.node))
+            ends = after_walk
         ctx.ob(rule, f'is_exposed:return-false#{k - 1}', fi.loc(r.ast),
                ends, 'answered only where the walk over the ancestors ends'
                if ends else
